@@ -59,7 +59,59 @@ def usage_programs(ctx):
     return out
 
 
+# The standard library as the OpenQASM 3 specification defines it (stdgates.inc, plus the OpenQASM 2 compatibility
+# gates the library lists): name -> (angle parameters, qubits).  Written from the specification, NOT read from the
+# code: the code's table (symbols.rs: standard_library_gates) is translated into the model on every run, so the model
+# follows an edit of that table — this is the independent statement of what "the gate's definition" is for a
+# standard-library gate.
+STD_SPEC = {"p": (1, 1), "x": (0, 1), "y": (0, 1), "z": (0, 1), "h": (0, 1), "s": (0, 1), "sdg": (0, 1), "t": (0, 1), "tdg": (0, 1),
+            "sx": (0, 1), "rx": (1, 1), "ry": (1, 1), "rz": (1, 1), "cx": (0, 2), "cy": (0, 2), "cz": (0, 2), "cp": (1, 2),
+            "crx": (1, 2), "cry": (1, 2), "crz": (1, 2), "ch": (0, 2), "swap": (0, 2), "ccx": (0, 3), "cswap": (0, 3),
+            "cu": (4, 2), "CX": (0, 2), "phase": (1, 1), "cphase": (1, 2), "id": (0, 1), "u1": (1, 1), "u2": (2, 1), "u3": (3, 1),
+            "U": (3, 1)}
+STD_PRE = 'include "stdgates.inc";\nqubit[5] w;\n'
+
+
+class StdArity:
+    """oracle over the programs of `std_programs`: one call of one standard (or built-in) gate with k parameters and
+    m qubit operands is reported (parameter or qubit count) iff k or m differs from the specification's"""
+    __name__ = "vf.c13"
+    expect = {}
+
+    @classmethod
+    def programs(cls):
+        out = []
+        for g, (np_, nq) in STD_SPEC.items():
+            for k in sorted({np_, max(np_ - 1, 0), np_ + 1, 0}):
+                for m in sorted({nq, max(nq - 1, 1), nq + 1}):
+                    call = g + ("(" + ", ".join(f"0.{i + 1}" for i in range(k)) + ")" if k else "")
+                    text = STD_PRE + call + " " + ", ".join(f"w[{i}]" for i in range(m)) + ";\n"
+                    cls.expect[text] = (g, k != np_, m != nq)
+                    out.append(text)
+        return out
+
+    @classmethod
+    def check(cls, text, ast_line, sema_line):
+        if text not in cls.expect:
+            return []
+        g, bad_p, bad_q = cls.expect[text]
+        sema = OA.parse_sema_line(sema_line)
+        if sema["status"] != "ok":
+            return []
+        kinds = [k for k, _, _ in sema["errors"]]
+        out = []
+        got = kinds.count("NumGateParamsError") + kinds.count("NumGateQubitsError")
+        if (got > 0) != (bad_p or bad_q):
+            out.append(("C13", "std_gate_arity", f"gate {g}: {got} arity diagnostics, but the call "
+                        f"{'differs from' if bad_p or bad_q else 'matches'} the specification's signature "
+                        f"({STD_SPEC[g][0]} parameters, {STD_SPEC[g][1]} qubits)"))
+        other = [k for k in kinds if k not in ("NumGateParamsError", "NumGateQubitsError")]
+        if other:
+            out.append(("C13", "std_gate_arity", f"gate {g}: unexpected diagnostics {other[:4]}"))
+        return out
+
+
 def check(ctx):
-    progs = SC.default_programs(ctx, usage_programs(ctx))
-    return SC.run(ctx, "C13", ["Oq3.Props.C13"], [OA], progs,
+    progs = SC.default_programs(ctx, usage_programs(ctx) + StdArity.programs())
+    return SC.run(ctx, "C13", ["Oq3.Props.C13"], [OA, StdArity], progs,
                   "generated programs with wrong arities, wrong operand kinds, const targets, gates/defs/qubits in non-global scopes, returns at top level, delays with non-duration designators, PLUS the cross products of the rules' inputs, one usage per program over a fixed preamble: assignment target kind (33: every scalar type, const/non-const, registers, indexed, qubits, gates, subroutines, undeclared, built-in constants) x value kind (33) x operator (11); gate modifier x callee kind x argument list x operand list; declarations/returns/includes in every scope kind; delay designator x operand; call callee x arguments; quantum operand x binary operator; oracle: the usage rules recomputed from the typed AST and the recorded symbol types, compared with errors= as multisets of kind@span (missing and spurious)")
